@@ -717,7 +717,7 @@ func run(c *vf.Ctx) {
 	c.Floor("packed refs removed through a linked worktree", c.Counter("packed_ref_removals"), c.N(8, 60))
 	c.Floor("relative .git files accepted by git", c.Counter("relative_gitfile_accepted_by_git"), c.N(10, 80))
 	c.Floor("opens of stale worktree directories (removed or dangling)", c.Counter("stale_open_refused")+c.Counter("stale_open_succeeded"), c.N(40, 300))
-	c.Floor("re-opens of removed worktrees", c.Counter("reopen_removed"), c.N(5, 40))
+	c.Floor("re-opens of removed worktrees", c.Counter("reopen_removed"), c.N(2, 20))
 	c.Assume("two worktrees never have the same branch checked out (git forbids it; a commit through one would legitimately move the other's resolved HEAD); isolation is judged on the per-worktree HEAD file, index and files")
 	c.Assume("Remove only deletes the metadata directory (documented); the worktree directory itself is left alone and afterwards treated as dead")
 }
